@@ -461,7 +461,7 @@ struct Visitor : RecursiveASTVisitor<Visitor> {
     for (const FieldDecl *FD : R->fields()) {
       json::Object FO; FO["name"] = FD->getNameAsString(); FO["t"] = X.typeStr(FD->getType());
       if (auto *CAT = X.C.getAsConstantArrayType(FD->getType())) FO["array"] = (int64_t)CAT->getSize().getZExtValue();
-      if (FD->isBitField()) FO["bitfield"] = true;
+      if (FD->isBitField()) { FO["bitfield"] = true; FO["bitwidth"] = (int64_t)FD->getBitWidthValue(X.C); }
       std::string rec = X.recordOf(FD->getType()); if (!rec.empty()) FO["rec"] = rec;
       Fs.push_back(std::move(FO));
     }
